@@ -215,6 +215,14 @@ func init() {
 			return
 		}
 		t := w.tape
+		if t.Chance(1, 6) {
+			// a caller that asked for the ID of a half-built transaction and recovered
+			// from the panic: the addresses computed afterwards are what they always are
+			_ = guard(func() {
+				(&types.V2Transaction{FileContractResolutions: []types.V2FileContractResolution{{}}}).ID()
+			})
+			w.stats.Inc("probe.P2-after-recovered-hash-panic")
+		}
 		c := &polCtx{w: w}
 		for i := 0; i < 3; i++ {
 			c.keys = append(c.keys, deriveKey("c14-key", uint64(i), 1))
